@@ -679,8 +679,35 @@ def plan(tier):
             "mb3_size": 4, "mb3_len": 4}
 
 
+_neighbour = []
+
+
+def other_machines_exist():
+    """The process also hosts unrelated cpppo machines, among them one using predicate ("recognizer") transitions for digits and
+    for every symbol of the test universes -- as an application mixing hand-built tokenizers with regex machines would.  A regex
+    machine's language must not depend on what else has been constructed in the process."""
+    if _neighbour:
+        return
+    import cpppo
+    start = cpppo.state("tok-start")
+    digits = cpppo.state("tok-digits", terminal=True)
+    def is_digit(s, **kw):
+        try:
+            return (s if isinstance(s, str) else chr(s)).isdigit()
+        except (TypeError, ValueError):
+            return False
+
+    def is_letter(s, **kw):
+        return s in ("a", "b", "c", ord("a"), ord("b"), ord("c"))
+
+    start[is_digit] = digits
+    start[is_letter] = digits
+    _neighbour.append(cpppo.dfa("tok", initial=start))
+
+
 def shard(acc, item, tier, seed):
     family, entries = item
+    other_machines_exist()
     pl = plan(tier)
     import random
     strings = all_strings(FAMILIES[family]["universe"], pl[family + "_len"])
